@@ -48,7 +48,9 @@ def value_alts(kind, sp):
         us = int(td.total_seconds() * 10 ** 6)
         return [str(td), str(us), repr(td.total_seconds())], []
     if kind == "GUID":
-        return [sp, sp.replace("-", "")], [sp, sp.replace("-", "")]
+        # a GUID is a 128-bit value: drivers receive it in canonical lower case whatever the case of the literal
+        lo = sp.lower()
+        return [sp, sp.replace("-", ""), lo, lo.replace("-", "")], [sp, sp.replace("-", ""), lo, lo.replace("-", "")]
     return [sp], []
 
 
